@@ -69,6 +69,10 @@ type G struct {
 	inMacro int
 	inInterp int
 	textSeq int
+	usedBlock    map[string]bool
+	embedOK      map[int]bool
+	targetBlocks map[int]map[string]bool
+	forceOnly    bool
 }
 
 type macroInfo struct {
